@@ -3,6 +3,7 @@ package props
 import (
 	"encoding/json"
 	"fmt"
+	"time"
 
 	"github.com/cocosip/go-dicom-codecs/jpeg2000/colorspace"
 	"github.com/cocosip/go-dicom-codecs/jpeg2000/mqc"
@@ -563,3 +564,6 @@ func c20RCT(c *c20Case) mon.Result {
 	}
 	return res
 }
+
+// CaseTimeout: the thorough MQ enumeration batches legitimately run for many minutes each.
+func (c20) CaseTimeout() time.Duration { return 3 * time.Hour }
